@@ -1059,12 +1059,25 @@ pub fn check_tcase(case: &TCase, ch: &mut Chooser, ctx: &mut CaseCtx) -> Result<
                 }
             }
         }
-        // array return counts: bounded by the number of distinct keys given
+        // array return counts: bounded by the number of distinct keys given - unless another thread
+        // acts on one of the same (id, key) pairs: an array operation is a sequence of single
+        // operations, not one atomic step (the property promises that nothing is lost or duplicated,
+        // not atomicity), so `insert_array(id, [k, k])` may create the association twice when a
+        // concurrent `remove(id, k)` lands in between; then the bound is the number of occurrences
         for (t, i, op) in &flat {
-            if let (TOp::InsertArray { keys, .. } | TOp::RemoveArray { keys, .. }, TRet::Count(n)) = (op, &rets[*t][*i]) {
+            if let (TOp::InsertArray { id, keys } | TOp::RemoveArray { id, keys }, TRet::Count(n)) = (op, &rets[*t][*i]) {
                 let d: BTreeSet<u8> = keys.iter().cloned().collect();
-                if *n > d.len() {
-                    return Err(format!("{op:?} returned {n} for {} distinct keys", d.len()));
+                let contended = flat.iter().any(|(t2, _, o2)| {
+                    t2 != t
+                        && match o2 {
+                            TOp::Insert { id: i2, key } | TOp::Remove { id: i2, key } => i2 == id && d.contains(key),
+                            TOp::InsertArray { id: i2, keys: k2 } | TOp::RemoveArray { id: i2, keys: k2 } => i2 == id && k2.iter().any(|k| d.contains(k)),
+                            _ => false,
+                        }
+                });
+                let bound = if contended { keys.len() } else { d.len() };
+                if *n > bound {
+                    return Err(format!("{op:?} returned {n} for {} distinct keys ({} occurrences, pairs contended by another thread: {contended})", d.len(), keys.len()));
                 }
             }
         }
